@@ -6,6 +6,7 @@ import AskarModel.Model.Spec
 import AskarModel.Lemmas.Refine
 import AskarModel.Model.SqlShape
 import AskarModel.Generated.Stmts
+import AskarModel.Generated.StmtsPg
 
 namespace Askar.Store
 
@@ -89,5 +90,11 @@ theorem stmt_profile_scoped :
     (∀ s ∈ [Sql.Generated.countQuery, Sql.Generated.scanQuery, Sql.Generated.fetchQuery, Sql.Generated.deleteQuery,
             Sql.Generated.deleteAllQuery, Sql.Generated.updateQuery], s.profileScoped = true) ∧
     Sql.Generated.insertQuery.cols.head? = some ("profile_id", 1) := by decide
+
+/-- The same for the POSTGRES backend's statements (proof obligation over the extracted text only). -/
+theorem pg_stmt_profile_scoped :
+    (∀ s ∈ [Sql.GeneratedPg.countQuery, Sql.GeneratedPg.scanQuery, Sql.GeneratedPg.fetchQuery, Sql.GeneratedPg.fetchQueryUpdate,
+            Sql.GeneratedPg.deleteQuery, Sql.GeneratedPg.deleteAllQuery, Sql.GeneratedPg.updateQuery], s.profileScoped = true) ∧
+    Sql.GeneratedPg.insertQuery.cols.head? = some ("profile_id", 1) := by decide
 
 end Askar.Store
